@@ -12,7 +12,8 @@ columns in x,y,z order, origin -> translation, None -> identity. (AFFINE) no pos
 anywhere in the crate: scaling a position is not invariant under translation of the frame. (EXPR/COMUT) SvdBasis centre is the
 (weighted) mean and is the value stored; offsets are (p - centre) possibly times the weight; point_to_basis / point_from_basis
 have mutually inverse shapes; Plane3 stores n and n.p of the same n, three-point form uses cross(p2-p1, p3-p1) and p1,
-inverted_normal negates both, project_point = p - n*signed_distance, signed_distance = n.p - d."""
+inverted_normal negates both, project_point = p - n*signed_distance, signed_distance = n.p - d.
+mean_point = sum / n and mean_point_weighted = weighted sum / sum of weights, both over every element."""
 NOT_DECIDED = "ordering/orthonormality of nalgebra's SVD output, equivariance, singular-value scaling under weights; for rank only the counting rule (strictly greater than tol, once per value) is decided"
 ASSUMPTIONS = ["nalgebra: cross is the right-handed vector product; try_normalize returns None below the threshold"]
 
